@@ -89,6 +89,10 @@ class Ctx(object):
 
     def finish(self):
         self.cov['distinct_nontrivial'] = len(self._distinct)
+        if 'exhaustive' in self.cov and not isinstance(self.cov['exhaustive'], bool):
+            # the evidence schema wants one boolean: partial statements go to exhaustive_parts
+            self.cov['exhaustive_parts'] = self.cov['exhaustive']
+            self.cov['exhaustive'] = False
         wall = time.time() - self.t0
         replay = None
         if self.violations:
